@@ -209,7 +209,7 @@ CHECKS = {
              "exact; list-like children <= max_collection_size; nesting depth < max_var_depth; with the FIFO work list the "
              "recording order is non-decreasing in depth and whatever is still waiting is at least as deep as everything recorded (shallower variables win), and a checked witness shows the LIFO "
              "discipline violates it. Tied to the code by evaluating the model inside Coq on the graphs the real "
-             "TriggerHandler just collected (table, frame variables, watches must be equal). Tie T2 (coq/gen/PCollect.v, translated from source on every run): truncate_string, check_var_count, and the traversal itself - one iteration of breadth_first_search's work-list loop and VariableSetProcessor.search_function - proved to compute the model's run for every heap, state and fuel (TieTraverse.v), so the breadth-first, budget and termination theorems are stated over the translated loop; process_list_breadth_first (collection-size cap) and process_child_nodes (no-child types, depth gate) - proved to be the model's children_of (TieChildren.v).",
+             "TriggerHandler just collected (table, frame variables, watches must be equal). Tie T2 (coq/gen/PCollect.v, translated from source on every run): truncate_string, check_var_count, and the traversal itself - one iteration of breadth_first_search's work-list loop, VariableSetProcessor.search_function, process_variable and Node.add_children - proved to compute the model's run for every heap, state and fuel (TieTraverse.v), so the breadth-first, budget and termination theorems are stated over the translated loop; process_list_breadth_first (collection-size cap) and process_child_nodes (no-child types, depth gate) - proved to be the model's children_of (TieChildren.v).",
         note="Trusted: Coq kernel+VM; harness reader and generators; id() injective on live objects; time budget not hit.",
         design="5-C05"),
     "C06": dict(
@@ -300,7 +300,7 @@ def main():
                  serves_properties=["C08"], kind_free_text="records as finite maps, table-driven conversion, losslessness law; tables regenerated from the converter functions; serialise/parse oracle"),
             dict(name="E7-translated-functions", path="harness/translate/pure.py coq/theories/PureSupport.v coq/gen/PLimits.v coq/gen/PMatch.v coq/gen/PCollect.v coq/gen/PChildren.v coq/gen/PRender.v coq/gen/PSelect.v coq/gen/PEvent.v coq/gen/PTruth.v coq/gen/PGate.v coq/gen/PTable.v coq/gen/PFrames.v coq/gen/PStore.v coq/gen/PService.v coq/gen/PRegistry.v coq/gen/PCallbacks.v coq/gen/PMetrics.v coq/gen/PHooks.v coq/gen/PSpans.v coq/theories/TieSpans.v coq/theories/TieLimits.v coq/theories/TieMatch.v coq/theories/TieCollect.v coq/theories/TieTraverse.v coq/theories/TieRoot.v coq/theories/TieNames.v coq/theories/TieChildren.v coq/theories/TieRender.v coq/theories/TieSelect.v coq/theories/TieEvent.v coq/theories/TieEventHit.v coq/theories/TieTruth.v coq/theories/TieGate.v coq/theories/TieHit.v coq/theories/TieTable.v coq/theories/TieFrames.v coq/theories/TieStore.v coq/theories/TieService.v coq/theories/TieRegistry.v coq/theories/TieCallbacks.v coq/theories/TieMetrics.v coq/theories/TieHooks.v tools/mutate_pure.py",
                  serves_properties=["C02", "C03", "C04", "C05", "C07", "C10", "C11", "C12", "C13", "C14", "C15", "C17", "C18", "C19", "C20"],
-                 kind_free_text="56 functions of the agent translated statement by statement into Gallina on every run by a fail-closed Python-ast translator and proved equal to the functions of the hand-written models; property theorems stated over the translated code"),
+                 kind_free_text="57 functions of the agent translated statement by statement into Gallina on every run by a fail-closed Python-ast translator and proved equal to the functions of the hand-written models; property theorems stated over the translated code"),
             dict(name="E4-stores", path="coq/theories/Attrs.v coq/theories/AttrsProofs.v coq/theories/Config.v harness/props/c18.py harness/props/c19.py",
                  serves_properties=["C18", "C19"], kind_free_text="Gallina models of the attribute store, resources, configuration resolution; proofs; in-Coq correspondence"),
         ],
